@@ -75,6 +75,7 @@ type xop struct {
 }
 
 type xtrace struct {
+	mis bool // some shard group ends after its index group
 	d0  int64
 	sh  []xsh
 	ix  []xix
@@ -179,6 +180,20 @@ func genX(r *hx.Rng) *xtrace {
 			sid += 2
 			gid++
 		}
+	}
+	if r.Chance(15) && len(t.sh) > 0 {
+		// a shard group that outlives its index group: what CreateShardGroup produces after
+		// ALTER RETENTION POLICY ... SHARD DURATION raised the shard group duration (the new,
+		// longer shard group is attached to the older, shorter index group that contains the timestamp)
+		i := r.Intn(len(t.sh))
+		x := t.ix[0]
+		for _, c := range t.ix {
+			if c.iid == t.sh[i].iid {
+				x = c
+			}
+		}
+		t.sh[i].endRel = x.endRel + int64(1+r.Intn(2))*k*G
+		t.mis = true
 	}
 	if len(t.sh) == 0 {
 		x := t.ix[0]
@@ -308,10 +323,14 @@ func genX(r *hx.Rng) *xtrace {
 					}
 				}
 			}
+			back := r.Chance(6) // the wall clock is set back
 			for try := 0; try < 8; try++ {
 				dt := cands[r.Intn(len(cands))]
 				if dt <= 0 {
 					continue
+				}
+				if back {
+					dt = -dt
 				}
 				good := cacheOK(vnow + dt)
 				for _, d := range used {
@@ -943,6 +962,9 @@ func playX(root string, t *xtrace) (out []emitted, st map[string]int, err error)
 					}
 					for _, sid := range xe.usersAtI[iid] {
 						s := w.shOf[sid]
+						if closedS[sid] {
+							continue // a closing shard has let go of its index builder
+						}
 						if !expired(refI, s.endRel) {
 							viol = append(viol, [2]string{"index-expired-under-live-shard", fmt.Sprintf("index %d reported expired while shard %d (end %+d ns, clock %d) that holds it is not expired under the policy duration %d ;; history: %s", iid, sid, s.endRel, w.vnow, refI, hist)})
 						}
@@ -966,6 +988,16 @@ func playX(root string, t *xtrace) (out []emitted, st map[string]int, err error)
 					for iid := range xm.listed {
 						x := w.ixOf[iid]
 						if x == nil || !expired(refI, x.endRel) {
+							continue
+						}
+						waits := false
+						for _, sid := range xe.usersAtI[iid] {
+							if !closedS[sid] && !expired(refI, w.shOf[sid].endRel) {
+								waits = true // a live shard still works with the index (shard group outlives the index group)
+							}
+						}
+						if waits {
+							st["x.fair-run.index-waits-for-live-shard"]++
 							continue
 						}
 						st["x.fair-run.expired-index"]++
@@ -1004,6 +1036,9 @@ func playX(root string, t *xtrace) (out []emitted, st map[string]int, err error)
 				}
 				if refreshed && refI == 0 {
 					st["x.run.unlimited"]++
+				}
+				if t.mis {
+					st["x.run.misaligned-layout"]++
 				}
 			}
 		})
